@@ -108,3 +108,39 @@ func zzMarshal(n *yaml.Node) (b []byte, err error) {
 	}()
 	return yaml.Marshal(n)
 }
+
+
+// ZZ_C16_Merge: merging an included Taskfile never panics, for every combination
+// of a default task, excludes, flatten, aliases and a clashing task in the parent.
+func ZZ_C16_Merge() {
+	t2 := NewTasks()
+	if zz.Bool("included_has_default") {
+		t2.Set("default", &Task{Task: "default"})
+	}
+	t2.Set("other", &Task{Task: "other", Aliases: []string{"o"}, Deps: []*Dep{nil, {Task: "default"}}, Cmds: []*Cmd{nil, {Task: "other"}}})
+	t1 := NewTasks()
+	if zz.Bool("parent_has_namespace_task") {
+		t1.Set("inc", &Task{Task: "inc"})
+	}
+	inc := &Include{Namespace: "inc", Flatten: zz.Bool("flatten"), AdvancedImport: zz.Bool("advanced"), Internal: zz.Bool("internal")}
+	switch zz.Choose("excludes", 4) {
+	case 1:
+		inc.Excludes = []string{"default"}
+	case 2:
+		inc.Excludes = []string{"other"}
+	case 3:
+		inc.Excludes = []string{"default", "other"}
+	}
+	if zz.Bool("has_aliases") {
+		inc.Aliases = []string{"i"}
+	}
+	var vars *Vars
+	if zz.Bool("vars_present") {
+		vars = NewVars()
+	}
+	_ = t1.Merge(t2, inc, vars)
+	if zz.Twin() {
+		zz.Assert(false, "twin")
+	}
+	zz.Reach("end")
+}
